@@ -234,6 +234,9 @@ def run(ctx):
             if on:
                 obs.count('style:%s' % name)
         ok = check_wellformed(data, layout, obs, case)
+        if ok and k % 61 == 0:
+            common.check_real_streams(data, obs, {'file': data,
+                                                  'real_streams': True})
         if k < 2 and ctx.index == 0:
             obs.sample({'file': data[:600]})
         if ok and k % defect_every == 0 and len(data) < 5000:
@@ -252,6 +255,8 @@ def replay(case, obs):
     from mon.oracle import scanner
     if 'concurrent' in case or 'interleaved' in case:
         return common.replay_reader_concurrency(case, obs)
+    if case.get('real_streams'):
+        return common.check_real_streams(case['file'], obs, case)
     obs.case(None, nontrivial=False)
     data = case['file']
     if 'defect' in case:
